@@ -26,12 +26,17 @@
 #   <module>.__dict__          what globals() / vars() / <module>.__dict__ give access to.
 #   ext:<mod>.<name>           an attribute of a module OUTSIDE the five (sys.stdout = .., csv.field_size_limit ..) that is stored to.
 #   Function attributes (f.x = ..) and attributes added to classes are writes to the cell of the function / class.
+#   A cell that some function REBINDS (global x; x = .. / <module>.x = .. / Cls.x = ..) is generalised to kind unknown, unbounded depth:
+#   its module-level initialiser no longer bounds what it holds (`cache = None` at module level, `cache = {}` in a function).
 #
 # ABSTRACT VALUES (flow-insensitive, context-insensitive, field-based; least fixpoint over all functions)
 #   (c, k, f): "may be reached from shared cell c": f = 0: the object at nesting depth k inside the object of c (k = 0: the object
 #   itself); f > 0: a FRESH container (f layers of private containers) whose leaves are depth-k objects of c.  A value at depth
 #   k >= m(c) is immutable and dropped.  k is capped at 4 and f at 3 (at the cap the deeper values are merged, never dropped).
-#   F(fn) / B(fn): may be function fn / a bound method;  C(cls): may be class cls.
+#   F(fn) / B(fn): may be function fn / a bound method;  C(cls): may be class cls;  NT(c): a class made by namedtuple (calling it
+#   wraps its arguments);  MOD(m) / EXT(dotted): one of the five modules / an object of an external module.  Function and class
+#   OBJECTS do not travel as shared data (they have no container methods): only an explicit attribute / item store, setattr, delattr
+#   on them is a write; an attribute READ off a shared class / function object (Cls.registry, f.cache) is (cell of Cls / f, 1, 0).
 #   load of a module-level name x: val(x) + (x,0,0);   e.X: ATTR[X] (one table per attribute NAME, all objects merged) + for
 #   (c,k,0) in e: (c,k+1,0) + the class-level cell named X + methods named X as B;   e[i] / iteration / unpacking / .get .pop
 #   .values .items ..: element (f>0: f-1; f=0: k+1);   e[a:b], list(e) tuple(e) sorted(e) set(e) dict(e) e.copy() e+e copy.copy(e):
@@ -51,6 +56,18 @@
 #   Soundness argument for the copy rule: a shallow copy allocates a new outer object, so mutating THAT object cannot be seen
 #   through c; everything read out of it is again (c,k+1,0).  For the depth rule: the kind of a cell is taken from ALL its
 #   module-level binding sites and from every rebinding site (a rebinding is a write anyway).
+#   Soundness argument for by-name resolution: e.m(..) is linked to EVERY method named m and e.X reads the ONE table ATTR[X] that every
+#   store to an attribute named X (on any object) feeds, so no knowledge of the receiver's class is needed; the price is precision only.
+# FLAGS (the one refinement the unchanged tree needs): `if <name>:` whose test is exactly a module-level cell with a const initialiser
+#   records the effects of its body under SGuard <cell>.  Cells whose EVERY module-level binding is the literal False / None / 0 and
+#   that are used this way are listed in off_py ("assumed off"): Shared.v's analyser skips blocks guarded by them and the theorems
+#   take  truthy (g c) = false  as a hypothesis; because `isolated` still demands that nothing reachable outside such blocks writes
+#   ANY cell, the flags stay off.  In the unchanged tree: rbql_csv.debug_mode guards the call rbql_engine.set_debug_mode() in query_csv.
+#   Values still flow through guarded code unconditionally (only the EFFECTS are guarded).
+# REFUSED (cannot translate; fail closed): decorators other than staticmethod / classmethod / property, metaclasses, __new__, match, eval,
+#   exec without explicit namespaces, exec inside generated code, dynamic import, an unresolvable name, a call into an external module
+#   that is neither in READONLY_EXT nor in EXT_MUTATE_FIRST, any use of importlib / sys.modules / gc / inspect / ctypes / types / pickle /
+#   threading / atexit .. (REFLECTION: they reach every cell), `from m import *`, relative imports outside the five modules.
 # ENTRY POINTS: rbql_engine.query / query_table / exception_to_error_info, rbql_csv.query_csv, rbql_pandas.query_dataframe,
 #   rbql_sqlite.query_sqlite_to_csv, every method of every module-level class whose name ends in Iterator / Writer / Registry,
 #   and every __dunder__ method of every class (they are called implicitly).  set_debug_mode is configuration, not a query: it
@@ -1476,6 +1493,8 @@ class Analyzer:
         while True:
             rounds += 1
             self.changed = False
+            self.unknown_callees.clear()             # (reporting only: what the LAST round could not resolve)
+            self.externals.clear()
             for fn in list(self.funcs):
                 self.analyse_func(fn)
             if not self.changed:
